@@ -365,6 +365,18 @@ DEFOP(set_number) {
     n->num = d;
     w.log.add("set_number " + mv_dump(n, 30));
 }
+// change a number in place to a related value (same position, different value): what diff generators must notice
+DEFOP(nudge_number) {
+    MVal *n = w.pick(st.A(0), st.A(1), [&](MVal *m) { return m->type == T_NUMBER && w.mutable_node(m); });
+    if (!n) { w.noop(st, "no number"); return; }
+    static const double f[] = {2.0, 3.0, 0.5, -1.0, 1.5, 10.0};
+    double d = n->num == 0 ? (double)(1 + (uint64_t)st.A(2) % 4) * 1e-20 : n->num * f[(uint64_t)st.A(2) % 6];
+    if (d != d || std::isinf(d)) d = 1;
+    double r = cJSON_SetNumberValue(n->c, d);
+    w.expect(r == d, "return", "SetNumberValue returned a different number");
+    n->num = d;
+    w.log.add("nudge_number " + mv_dump(n, 30));
+}
 DEFOP(set_int) {
     MVal *n = w.pick(st.A(0), st.A(1), [&](MVal *m) { return m->type == T_NUMBER && w.mutable_node(m); });
     if (!n) { w.noop(st, "no number"); return; }
